@@ -15,7 +15,7 @@ LEVEL_NOTE = ('Trusted base: the reference model / independent readers in /verif
 CHECKS = {
     'C01': ('exhaustive tables x all subsets + Hypothesis (incl. >64-column) tables vs cell-by-cell definition of the derivations',
             'intension/extension are compared, for every subset of every table up to 12/16 cells and for structured '
-            'subsets of wide (60-140 column/row) tables, with the definition evaluated cell by cell on the input; '
+            'subsets of wide (60-320 column/row) tables, with the definition evaluated cell by cell on the input; '
             'argument forms (repeats, order, iterators) and raw/label forms are varied.', '3 C01'),
     'C02': ('exhaustive tables x all non-empty subsets vs reference closure + leastness/closure-law checks + identity of returned members',
             'context[...] / lattice[...] / lattice(...) are checked against the reference closure, against leastness '
